@@ -404,7 +404,7 @@ Example C02_about_to_change_writer_example :
   map (PropDefs.values (PropDefs.run fn true 8 (ops1 ++ ops2))) [0; 1; 2] = [Some 7%Z; Some 5%Z; Some 12%Z].
 Proof. vm_compute. repeat split; reflexivity. Qed.
 
-(* ... and, as in section 9, also when everything is interleaved in ANY order: new properties, observers of every kind above, reset(), immediate bindings of fresh properties, of existing unbound ones (which may have readers and observers, but no writing observer of valueAboutToChange) and of bound ones (rebinding), move construction of any property (its observers, writing ones included, move with it), fresh immediately
+(* ... and, as in section 9, also when everything is interleaved in ANY order: new properties, observers of every kind above, reset(), immediate bindings of fresh properties, of existing unbound ones (which may have readers and observers, but no writing observer of valueAboutToChange) and of bound ones (rebinding), move construction of any property (its observers, writing ones included, move with it), destruction of a property no live binding reads (its observers, writing ones included, die with it: grow_del_b), fresh immediately
    bound properties, assignments (the growth lemmas once more, with `writing observers of both signals allowed`; a freshly created
    property has no valueAboutToChange table, so binding it puts no writing observer on a bound property) *)
 Theorem C02_growing_network_with_writing_observers_of_both_signals_consistent :
@@ -425,4 +425,17 @@ Example C02_writers_of_both_signals_any_order_example :
               PropDefs.PSet 0 7%Z PropDefs.WSet] in
   PropGrowAct2.grow_act2_run_ok fn true 8 PropDefs.world0 ops /\
   map (PropDefs.values (PropDefs.run fn true 8 ops)) [0; 1; 2; 3; 4] = [Some 7%Z; Some 5%Z; Some 12%Z; Some 5%Z; Some 17%Z].
+Proof. vm_compute. repeat split; try (left; reflexivity); reflexivity. Qed.
+
+(* non-vacuity of the destruction case: property 3 carries a writing observer (writes 1), a binding is built, then 3 is destroyed while
+   the writer exists; later assignments keep every binding at its expression's value *)
+Example C02_destruction_with_writing_observers_example :
+  let fn := fun (f : nat) (l : list Z) => Some (fold_right Z.add 0%Z l) in
+  let ops := [PropDefs.PNew 0 1%Z; PropDefs.PNew 1 0%Z; PropDefs.PNew 3 0%Z;
+              PropDefs.PObserve 3 PropDefs.KChanged 100 0 (Some (false, 1));
+              PropDefs.PObserve 0 PropDefs.KChanged 101 1 (Some (false, 3));
+              PropDefs.PBind 2 (PropDefs.EOp2 0 (PropDefs.EProp 0) (PropDefs.EProp 1)) PropDefs.MImmediate;
+              PropDefs.PSet 0 5%Z PropDefs.WSet; PropDefs.PDel 3; PropDefs.PSet 0 7%Z PropDefs.WSet] in
+  PropGrowAct2.grow_act2_run_ok fn true 8 PropDefs.world0 ops /\
+  map (PropDefs.values (PropDefs.run fn true 8 ops)) [0; 1; 2; 3] = [Some 7%Z; Some 5%Z; Some 12%Z; None].
 Proof. vm_compute. repeat split; try (left; reflexivity); reflexivity. Qed.
